@@ -126,6 +126,7 @@ def gen_PyFuns2() -> None:
 ENUMS = [
     ("enumSb2CmdTag", "spsdk/sbfile/sb2/commands.py", "EnumCmdTag"),
     ("enumAhabTargetMemory", "spsdk/image/ahab/ahab_data.py", "AhabTargetMemory"),
+    ("enumFlagsSrkSet", "spsdk/image/ahab/ahab_data.py", "FlagsSrkSet"),       # a SpsdkSoftEnum (phase 3)
 ]
 
 
@@ -210,4 +211,160 @@ def gen_EnumTables() -> None:
     emit("EnumTables", "\n".join(out) + "\n", meta)
 
 
-GENERATORS = {"PyFuns2": gen_PyFuns2, "EnumTables": gen_EnumTables}
+# ------------------------------------------------------------------------------------------------ phase 3
+SPECS3 = [
+    dict(file=MISC, qualname="format_value", lean="formatValuePadding", mode="until:padding", ret="Int",
+         drop=("value", "delimiter", "use_prefix"), fallback="(size : Int)"),
+    dict(file=SBMISC, qualname="BcdVersion3._num_from_str", lean="bcdNumFromStrGuard", mode="guards", ret="Bool",
+         param_types={"text": "Len"}, fallback="(text_len : Int)"),
+    dict(file=SBMISC, qualname="unpack_timestamp", lean="unpackTimestampGuard", mode="guards", ret="Bool", fallback="(value : Int)"),
+]
+
+
+def _translate_specs(name: str, specs) -> None:
+    env = Env()
+    out = ["import SpsdkVerif.Base.Py", "", f"namespace SpsdkVerif.Generated.{name}", "open SpsdkVerif", ""]
+    meta = {"functions": {}}
+    trees: dict = {}
+    for sp in specs:
+        rel, lean = sp["file"], sp["lean"]
+        try:
+            if rel not in trees:
+                try:
+                    trees[rel] = parse(rel)
+                    env.consts.update(module_int_consts(trees[rel]))
+                except (OSError, SyntaxError) as exc:
+                    trees[rel] = None
+                    meta.setdefault("errors", []).append(f"{rel}: {exc}")
+            if trees[rel] is None:
+                raise Untranslatable("source file unreadable")
+            fn = find_function(trees[rel], sp["qualname"])
+            drop = ("self", "cls") + tuple(sp.get("drop", ()))
+            mode = sp["mode"]
+            if mode == "guards":
+                text, sig = slice_guards(fn, env, lean, sp.get("param_types"), drop)
+            else:
+                if mode.startswith("until:"):
+                    fn = slice_until(fn, mode.split(":", 1)[1])
+                text, sig = translate_function(fn, lean, env, sp.get("param_types"), sp["ret"], drop_params=drop)
+            out.append(f"/-- translated from `{rel}::{sp['qualname']}` ({mode}) -/")
+            out.append(text)
+            meta["functions"][lean] = {"mode": "translated", "slice": mode, "source": f"{rel}::{sp['qualname']}",
+                                       "params": sig.params, "ret": sig.ret, "fuel": sig.fuel}
+        except Untranslatable as exc:
+            out.append(f"-- untranslatable: {rel}::{sp['qualname']}: {exc}")
+            out.append(f"def {lean} {sp['fallback']} : PyRes {sp['ret']} := .error .other\n")
+            meta["functions"][lean] = {"mode": "untranslatable", "reason": str(exc), "source": f"{rel}::{sp['qualname']}"}
+    out.append(f"end SpsdkVerif.Generated.{name}")
+    emit(name, "\n".join(out) + "\n", meta)
+
+
+def gen_PyFuns3() -> None:
+    """format_value's padding arithmetic, the length guard of BcdVersion3._num_from_str, the range guard of unpack_timestamp."""
+    _translate_specs("PyFuns3", SPECS3)
+
+
+def _size_fmt_tables(tree):
+    """(base, suffix) pairs and the prefix letters of size_fmt, read by VALUE from the function body."""
+    fn = find_function(tree, "size_fmt")
+    pairs = letters = None
+    for n in ast.walk(fn):
+        if pairs is None and isinstance(n, (ast.List, ast.Tuple)) and len(n.elts) == 2:
+            try:
+                v = ast.literal_eval(n)
+            except (ValueError, SyntaxError):
+                continue
+            if all(isinstance(e, tuple) and len(e) == 2 and isinstance(e[0], (int, float)) and isinstance(e[1], str) for e in v):
+                pairs = [(e[0], e[1]) for e in v]
+        if letters is None and isinstance(n, ast.Call) and getattr(n.func, "id", None) == "list" and len(n.args) == 1:
+            try:
+                v = ast.literal_eval(n.args[0])
+            except (ValueError, SyntaxError):
+                continue
+            if isinstance(v, str):
+                letters = v
+    if letters is None:   # re-spelling `["k", "M", …]`
+        for n in ast.walk(fn):
+            if isinstance(n, ast.List) and len(n.elts) > 1 and all(isinstance(e, ast.Constant) and isinstance(e.value, str)
+                                                                    and len(e.value) == 1 for e in n.elts):
+                letters = "".join(e.value for e in n.elts)
+                break
+    if pairs is None or letters is None:
+        raise ValueError("size_fmt tables not found")
+    for b, _s in pairs:
+        if b != int(b) or b <= 1:
+            raise ValueError("size_fmt base is not an integer > 1")
+    return [(int(b), s) for b, s in pairs], letters
+
+
+def gen_Misc3Tables() -> None:
+    """Constants the phase-3 hand model refers to, read by VALUE (tools/extract/consteval.py)."""
+    from consteval import ModuleEnv, NotConst
+
+    out = ["namespace SpsdkVerif.Generated.Misc3Tables", ""]
+    meta: dict = {}
+
+    def guard(key, fn, default):
+        try:
+            v = fn()
+            meta[key] = {"value": v, "error": None}
+            return v, None
+        except (OSError, SyntaxError, ValueError, NotConst, Untranslatable, KeyError, StopIteration) as exc:
+            meta[key] = {"value": None, "error": str(exc)}
+            return default, str(exc)
+
+    def tag(err):
+        return f" — NOT EXTRACTED: {err}" if err else ""
+
+    # Endianness members (name, value) in definition order
+    def endian():
+        me = ModuleEnv(parse(MISC))
+        cls = next(n for n in me.tree.body if isinstance(n, ast.ClassDef) and n.name == "Endianness")
+        rows = []
+        for st in cls.body:
+            if isinstance(st, ast.Assign) and len(st.targets) == 1 and isinstance(st.targets[0], ast.Name):
+                v = me.eval(st.value, cls="Endianness")
+                if not isinstance(v, str):
+                    raise ValueError("Endianness member is not a string")
+                rows.append([st.targets[0].id, v])
+        return rows
+    rows, err = guard("endianness", endian, [])
+    out.append(f"/-- `{MISC}::Endianness` members (name, value){tag(err)} -/")
+    out.append("def endiannessMembers : List (List Char × List Char) := [" + ", ".join(f"({_chars(n)}, {_chars(v)})" for n, v in rows) + "]\n")
+
+    (pairs, letters), err = guard("size_fmt", lambda: _size_fmt_tables(parse(MISC)), ([], ""))
+    out.append(f"/-- `{MISC}::size_fmt`: (base, suffix) for use_kibibyte = False / True{tag(err)} -/")
+    out.append("def sizeFmtBases : List (Nat × List Char) := [" + ", ".join(f"({b}, {_chars(s)})" for b, s in pairs) + "]\n")
+    out.append(f"/-- `{MISC}::size_fmt`: unit prefix letters after plain `B`{tag(err)} -/")
+    out.append(f"def sizeFmtPrefixes : List Char := {_chars(letters)}\n")
+
+    def sbconst(name, typ):
+        def f():
+            me = ModuleEnv(parse(SBMISC))
+            cls = name.split(".")[0]
+            v = me.cls(cls).value(name.split(".")[1])
+            if not isinstance(v, typ) or isinstance(v, bool):
+                raise ValueError(f"{name} is not {typ.__name__}")
+            return v
+        return f
+    bs, err = guard("BLOCK_SIZE", sbconst("SecBootBlckSize.BLOCK_SIZE", int), 0)
+    out.append(f"/-- `{SBMISC}::SecBootBlckSize.BLOCK_SIZE`{tag(err)} -/")
+    out.append(f"def sbBlockSize : Int := {bs}\n")
+    dv, err = guard("BCD_DEFAULT", sbconst("BcdVersion3.DEFAULT", str), "")
+    out.append(f"/-- `{SBMISC}::BcdVersion3.DEFAULT`{tag(err)} -/")
+    out.append(f"def bcdDefault : List Char := {_chars(dv)}\n")
+
+    def units():
+        me = ModuleEnv(parse(MISC))
+        v = me.cls("Timeout").value("UNITS")
+        if not (isinstance(v, dict) and all(isinstance(k, str) and isinstance(x, int) for k, x in v.items())):
+            raise ValueError("Timeout.UNITS is not {str: int}")
+        return [[k, x] for k, x in v.items()]
+    un, err = guard("Timeout.UNITS", units, [])
+    out.append(f"/-- `{MISC}::Timeout.UNITS`{tag(err)} -/")
+    out.append("def timeoutUnits : List (List Char × Nat) := [" + ", ".join(f"({_chars(k)}, {x})" for k, x in un) + "]\n")
+    out.append("end SpsdkVerif.Generated.Misc3Tables")
+    emit("Misc3Tables", "\n".join(out) + "\n", meta)
+
+
+GENERATORS = {"PyFuns2": gen_PyFuns2, "EnumTables": gen_EnumTables, "PyFuns3": gen_PyFuns3, "Misc3Tables": gen_Misc3Tables}
